@@ -216,4 +216,137 @@ example : (ancestorPath sampleWorld "r.a[2].b".toList ['a']).toOption = some ['r
     (ancestorPath sampleWorld "r.a[2].b".toList ['z']).toOption = none := by
   decide +kernel
 
+/-! ## `group_by`, `values`, `expand`
+
+`under d x q` enumerates the subtree of `x` (at path `q`) in pre-order down to `d` levels (`d < 0`: all levels). -/
+
+/-- The enumeration of the subtree at an enumerated path is an order-preserving part of the tree's enumeration. -/
+theorem subtree_enumeration (t : Entry) (q : Path) (x : Entry) (hq : (q, x) ∈ pathfy t [⟨t.name, none⟩]) :
+    (pathfy x q).Sublist (pathfy t [⟨t.name, none⟩]) :=
+  subtree_sublist t _ q x hq
+
+/-- `EntryCache.group_by(via, depth)` for every non-zero depth: the subtree at `via` in pre-order, cut `depth` levels
+    below `via`; the fuel of the model always suffices (no `RecursionError`). -/
+theorem groupBy_depth (t : Entry) (h : WfTags t) (q : Path) (x : Entry)
+    (hq : (q, x) ∈ pathfy t [⟨t.name, none⟩]) (d : Int) (hd : d ≠ 0) :
+    (mkCache t).groupByAll (encodePath q) d = .ok ((under d x q).map (fun pe => (encodePath pe.1, pe.2))) :=
+  groupByAll_mkCache t h q x hq d hd
+
+/-- `group_by(via)` with the default unbounded depth is the whole pre-order enumeration of the subtree at `via`. -/
+theorem groupBy_unbounded (t : Entry) (h : WfTags t) (q : Path) (x : Entry)
+    (hq : (q, x) ∈ pathfy t [⟨t.name, none⟩]) (d : Int) (hd : d < 0) :
+    (mkCache t).groupByAll (encodePath q) d = .ok ((pathfy x q).map (fun pe => (encodePath pe.1, pe.2))) := by
+  rw [← under_neg d hd]; exact groupByAll_mkCache t h q x hq d (by omega)
+
+/-- `group_by(via, 0)` is empty. -/
+theorem groupBy_zero (t : Entry) (h : WfTags t) (q : Path) (x : Entry)
+    (hq : (q, x) ∈ pathfy t [⟨t.name, none⟩]) : (mkCache t).groupByAll (encodePath q) 0 = .ok [] :=
+  groupByAll_zero t h q x hq
+
+/-- `Nodes.values(via)`: the non-empty token values of the subtree at `via`, in document order. -/
+theorem values_document_order (t : Entry) (h : WfTags t) (w : World) (hw : w.cache = mkCache t)
+    (q : Path) (x : Entry) (hq : (q, x) ∈ pathfy t [⟨t.name, none⟩]) :
+    valuesOf w (encodePath q) = .ok (((pathfy x q).map (fun pe => pe.2.value)).filter (fun v => !v.isEmpty)) :=
+  valuesOf_mkCache t h w hw q x hq
+
+example : (valuesOf sampleWorld ['r']).toOption = some [['x']] ∧
+    ((mkCache sample).groupByAll ['r'] 1).toOption.map (·.map (·.1)) =
+      some [['r'], ['r', '.', 'a', '[', '0', ']'], "r.__empty__".toList, ['r', '.', 'a', '[', '2', ']']] := by
+  decide +kernel
+
+/-- `Nodes.expand(via)` (paths before resolution) characterised on the tree: under the two decidable string-level side
+    conditions, for each child subtree of `via` — three levels deep — the entry itself when its tag is resolvable or it is
+    a terminal, else the same for its children (`expandOf`). -/
+theorem expand_spec (t : Entry) (h : WfTags t) (w : World) (hw : w.cache = mkCache t)
+    (q : Path) (x : Entry) (hq : (q, x) ∈ pathfy t [⟨t.name, none⟩])
+    (hsafe : PrefixSafe w q x) (hrel : RelativefySafe q x) :
+    expandPaths w (encodePath q) = .ok ((expandOf w.table.canResolve 3 x q).map encodePath) :=
+  expandPaths_mkCache t h w hw q x hq hsafe hrel
+
+/-- … and when, in addition, nothing expandable lies deeper than three levels (`expandOf … 3 = expandFullOf`, decidable),
+    the result is the uncapped "nearest resolvable descendants + terminals without a resolvable ancestor". -/
+theorem expand_spec_full (t : Entry) (h : WfTags t) (w : World) (hw : w.cache = mkCache t)
+    (q : Path) (x : Entry) (hq : (q, x) ∈ pathfy t [⟨t.name, none⟩])
+    (hsafe : PrefixSafe w q x) (hrel : RelativefySafe q x)
+    (hdepth : expandOf w.table.canResolve 3 x q = expandFullOf w.table.canResolve x q) :
+    expandPaths w (encodePath q) = .ok ((expandFullOf w.table.canResolve x q).map encodePath) := by
+  rw [← hdepth]; exact expand_spec t h w hw q x hq hsafe hrel
+
+example : PrefixSafe sampleWorld [⟨['r'], none⟩] sample ∧ RelativefySafe [⟨['r'], none⟩] sample ∧
+    (expandPaths sampleWorld ['r']).toOption =
+      some [['r', '.', 'a', '[', '0', ']'], "r.__empty__".toList, ['r', '.', 'a', '[', '2', ']']] := by
+  decide +kernel
+
+/-! ### the three ways `expand` departs from the tree (each replayed on the real `Nodes` by the search) -/
+
+/-- world over a tree in which exactly the given tags are resolvable -/
+def worldOf (t : Entry) (resolvable : List Str) : World :=
+  { root := t, cache := mkCache t,
+    table := { ctors := resolvable.map (fun s => (s, [⟨['K'], .always⟩])), fallback := some ⟨['T'], .always⟩ } }
+
+/-- `expand_spec` without `PrefixSafe`. -/
+def expand_noprefix_statement : Prop :=
+  ∀ (t : Entry) (w : World) (q : Path) (x : Entry), WfTags t → w.cache = mkCache t →
+    (q, x) ∈ pathfy t [⟨t.name, none⟩] → RelativefySafe q x →
+    expandPaths w (encodePath q) = .ok ((expandOf w.table.canResolve 3 x q).map encodePath)
+
+/-- siblings `list` (resolvable) and `list_comp`: `record` holds `r.list`, and `'r.list_comp'.startswith('r.list')`
+    drops the sibling. -/
+def prefixWitness : Entry :=
+  .tree ['r'] [.tree "list".toList [.token ['x'] ['a']], .token "list_comp".toList ['b']]
+
+theorem expand_prefix_counterexample : ¬ expand_noprefix_statement := by
+  intro hs
+  have := hs prefixWitness (worldOf prefixWitness ["list".toList]) [⟨['r'], none⟩] prefixWitness
+    (by decide +kernel) rfl (by decide +kernel) (by decide +kernel)
+  have := congrArg Except.toOption this
+  revert this
+  decide +kernel
+
+example : (expandPaths (worldOf prefixWitness ["list".toList]) ['r']).toOption = some ["r.list".toList] ∧
+    (expandOf (worldOf prefixWitness ["list".toList]).table.canResolve 3 prefixWitness [⟨['r'], none⟩]).map encodePath
+      = ["r.list".toList, "r.list_comp".toList] ∧
+    ¬ PrefixSafe (worldOf prefixWitness ["list".toList]) [⟨['r'], none⟩] prefixWitness := by
+  decide +kernel
+
+/-- `expand_spec` without `RelativefySafe`. -/
+def expand_norelativefy_statement : Prop :=
+  ∀ (t : Entry) (w : World) (q : Path) (x : Entry), WfTags t → w.cache = mkCache t →
+    (q, x) ∈ pathfy t [⟨t.name, none⟩] → PrefixSafe w q x →
+    expandPaths w (encodePath q) = .ok ((expandOf w.table.canResolve 3 x q).map encodePath)
+
+/-- `via = r`, terminal `r.ar.t`, tag `a` resolvable: `'r.ar.t'.split('r')[1]` is `'.a'`, so the terminal seems to lie
+    under a resolvable `a` and is dropped. -/
+def relativefyWitness : Entry := .tree ['r'] [.tree ['a', 'r'] [.token ['t'] ['v']]]
+
+theorem expand_relativefy_counterexample : ¬ expand_norelativefy_statement := by
+  intro hs
+  have := hs relativefyWitness (worldOf relativefyWitness [['a']]) [⟨['r'], none⟩] relativefyWitness
+    (by decide +kernel) rfl (by decide +kernel) (by decide +kernel)
+  have := congrArg Except.toOption this
+  revert this
+  decide +kernel
+
+/-- "three levels are enough": `expand_spec_full` without its depth hypothesis. -/
+def expand_depth3_statement : Prop :=
+  ∀ (t : Entry) (w : World) (q : Path) (x : Entry), WfTags t → w.cache = mkCache t →
+    (q, x) ∈ pathfy t [⟨t.name, none⟩] → PrefixSafe w q x → RelativefySafe q x →
+    expandPaths w (encodePath q) = .ok ((expandFullOf w.table.canResolve x q).map encodePath)
+
+/-- a resolvable `d` four levels below `r` with only unresolvable tree entries in between is missed -/
+def depthWitness : Entry := .tree ['r'] [.tree ['a'] [.tree ['b'] [.tree ['c'] [.token ['d'] ['v']]]]]
+
+theorem expand_depth3_counterexample : ¬ expand_depth3_statement := by
+  intro hs
+  have := hs depthWitness (worldOf depthWitness [['d']]) [⟨['r'], none⟩] depthWitness
+    (by decide +kernel) rfl (by decide +kernel) (by decide +kernel) (by decide +kernel)
+  have := congrArg Except.toOption this
+  revert this
+  decide +kernel
+
+example : (expandPaths (worldOf depthWitness [['d']]) ['r']).toOption = some [] ∧
+    (expandFullOf (worldOf depthWitness [['d']]).table.canResolve depthWitness [⟨['r'], none⟩]).map encodePath
+      = ["r.a.b.c.d".toList] := by
+  decide +kernel
+
 end Tranp.C10
